@@ -26,6 +26,7 @@ pub fn prop() -> Prop {
 
 fn run(sh: &mut Shard) {
     let tier = sh.cfg.tier;
+    gcprog::count_ladder(sh, "C04");
     heapmc::explore(sh, &super::c03::bounds(tier), "C04");
     if !sh.running() {
         return;
